@@ -2,6 +2,8 @@
 import json
 import traceback
 
+import json
+
 from .cosim import Divergence, History, Stats, exec_ev
 from .gen import Gen
 from .procs import Driver, Harness
@@ -65,3 +67,61 @@ def run_many(n, seed, profile, length, build="osmosis", stop_on_first=True, moni
         if d is not None:
             d.close()
     return stats, divs, findings
+
+
+def cross_build(n, seed, profile, length):
+    """the same histories against both real builds (implementation-led): everything observable must
+    agree once token-factory messages are decoded (C19: all other behaviour identical)"""
+    from .implworld import decode_msg
+    from .procs import canon_msgs, outcome
+    stats = {"histories": 0, "events": 0, "calls": 0}
+    divs = []
+    hs = {b: Harness(b) for b in ("osmosis", "miniwasm")}
+    try:
+        for i in range(n):
+            sd = seed * 1_000_003 + i
+            traces = {}
+            for b, h in hs.items():
+                st = Stats()
+                hist = History(h, None, sd, profile, st, build=b, mode="impl")
+                tr = []
+                try:
+                    if hist.boot():
+                        g = Gen(hist, profile.get("weights"))
+                        hist.event(exec_ev(hist.su.admin, {"resume_contract": {
+                            "total_native_token": "0", "total_liquid_stake_token": "0", "total_reward_amount": "0"}}))
+                        k = 0
+                        while k < length:
+                            for ev in g.next_events():
+                                tx = hist.event(ev)
+                                rec = []
+                                for c in tx["calls"]:
+                                    r = c["result"]
+                                    o = outcome(r)
+                                    msgs = [decode_msg(m) for m in canon_msgs(r["ok"])] if o == "ok" else []
+                                    rec.append((c["entry"], o, json.dumps(msgs, sort_keys=True)))
+                                tr.append({"ev": ev, "committed": tx["committed"], "calls": rec,
+                                           "dump": json.dumps(hist.dump, sort_keys=True)})
+                                k += 1
+                except Exception as e:  # noqa: BLE001
+                    tr.append({"error": repr(e)})
+                traces[b] = (tr, hist.events)
+                stats["calls"] += st.calls
+            stats["histories"] += 1
+            a, ea = traces["osmosis"]
+            bt, _ = traces["miniwasm"]
+            stats["events"] += len(a)
+            for j, (x, y) in enumerate(zip(a, bt)):
+                if x != y:
+                    divs.append({"seed": sd, "channel": "build-vs-build", "detail": {"step": j, "osmosis": str(x)[:1500], "miniwasm": str(y)[:1500]},
+                                 "events": ea[:j + 3]})
+                    break
+            else:
+                if len(a) != len(bt):
+                    divs.append({"seed": sd, "channel": "build-vs-build", "detail": {"lengths": [len(a), len(bt)]}, "events": ea})
+            if divs:
+                break
+    finally:
+        for h in hs.values():
+            h.close()
+    return stats, divs
